@@ -94,6 +94,9 @@ def _callee_names(b, F):
     return out
 
 
+_signature_all = signature
+
+
 def run(F, want=None):
     r = RuleResult("R21", "CLONES: copy-paste siblings of one model keep identical call sequences")
     with open(TABLE, "rb") as fh:
@@ -108,6 +111,10 @@ def run(F, want=None):
         found = [(suf, [b for b in F.bodies if b.path.endswith(suf)]) for suf in g["members"]]
         # helpers that every member calls under the same name stay calls (their own differences are not this group's business);
         # a helper that only some members call was extracted in those copies only and is replaced by its body
+        HOIST = frozenset(g.get("hoistable", ()))      # loop-invariant getters a copy may evaluate outside the member closure
+
+        def signature(b_, F_, depth_, members_, keep_, _sig=_signature_all, _h=HOIST):
+            return tuple((k_, c_) for k_, c_ in _sig(b_, F_, depth_, members_, keep_) if k_ not in _h)
         name_sets = [_callee_names(bs[0], F) for suf, bs in found if bs]
         KEEP = frozenset(set.intersection(*name_sets)) if name_sets else frozenset()
         for suf, bs in found:
